@@ -14,6 +14,7 @@
   `resid x cols = x − Σ cols` (`Sig.sub x (Sig.vsum x.length cols)`).
 -/
 import Proofs.Lemmas.SiftOuter
+import Proofs.Lemmas.Compose
 
 namespace C01
 open Sift
@@ -161,5 +162,35 @@ example : ExtractorOK tabX 7 where
     · exact h.1.symm
 example : peaks [1, 2, 3, 4, 5, 6, 7] < 2 := by decide +kernel
 example : peaks [0, 1, -1, 1, -1, 1, 0] = 3 ∧ troughs [0, 1, -1, 1, -1, 1, 0] = 2 := by decide +kernel
+
+
+/-! ### The composed pipeline: Sift model on top of the Extrema model (C05)
+
+The theorems above take the envelope as an oracle.  Here it is instantiated with the envelopes of
+the Extrema model (`Sift.extEnv I w parab` = upper/lower `Extrema.interpEnvelope` with pad width
+`w ≥ 1`, with or without parabolic refinement), leaving only the interpolant `I` abstract — the
+model of the whole chain get_padded_extrema → interp_envelope → get_next_imf → sift. -/
+
+/-- Completeness for the composed pipeline: when the sift ends of its own accord the components
+    sum to the input exactly, for every interpolant, pad width ≥ 1, refinement flag, stop rule,
+    step, iteration limit, threshold, cap, input and fuel. -/
+theorem sift_pipeline_complete (I : Extrema.Interp) (w : Nat) (parab : Bool) (D : Sig → Sig → Rat) (o : ImfOpts)
+    (he : o.energyThresh = none) (thr : Rat) (cap : Option Nat) (x : Sig) (fuel : Nat) (cols : List Sig)
+    (cp th : Bool)
+    (h : sift (extractorIx (fun _ => extEnv I w parab) D o) thr cap x fuel = (cols, .done true cp th)) :
+    Sig.vsum x.length cols = x :=
+  sift_getNextImf_complete _ (extEnv_len I w parab) D o he thr cap x fuel cols cp th h
+
+/-- … and the final component is a non-oscillatory residual in the sense of the Extrema model:
+    fewer than two detected peaks or fewer than two detected troughs. -/
+theorem sift_pipeline_last_nonoscillatory (I : Extrema.Interp) (w : Nat) (hw : 1 ≤ w) (parab : Bool)
+    (D : Sig → Sig → Rat) (o : ImfOpts) (he : o.energyThresh = none) (thr : Rat) (cap : Option Nat)
+    (x : Sig) (fuel : Nat) (cols : List Sig) (cp th : Bool)
+    (h : sift (extractorIx (fun _ => extEnv I w parab) D o) thr cap x fuel = (cols, .done true cp th)) :
+    ∃ c, cols.getLast? = some c ∧
+      ((Extrema.findPeaks c).length < 2 ∨ (Extrema.findTroughs c).length < 2) := by
+  rw [Compose.extEnv_eq_envOf I w hw parab] at h
+  obtain ⟨c, hc, hp⟩ := sift_last_nonoscillatory (Compose.envVals I w parab) D o he thr cap x fuel cols cp th h
+  exact ⟨c, hc, by rw [← Compose.peaks_eq, ← Compose.troughs_eq]; exact hp⟩
 
 end C01
